@@ -134,7 +134,8 @@ pub fn cases(deep: bool) -> Vec<(Case, Vec<&'static [&'static str]>)> {
     ];
     const O1: &[&str] = &[
         "definition: forall X (d(X) <-> p(X) and not q(X)). lemma: forall X (d(X) -> p(X)).", "lemma: forall X (p(X) -> q(X)).", "lemma: forall X (q(X) -> p(X)). lemma: exists X (p(X)).",
-        "inductive-lemma: forall N$i (N$i >= 0 -> (q(N$i) -> p(N$i))).", "definition: forall X (d(X) <-> q(X) and not p(X)). definition: forall X (e(X) <-> d(X) or p(X)). lemma: forall X (e(X) -> q(X)).",
+        "inductive-lemma: forall N$i (N$i >= 0 -> (q(N$i) -> p(N$i))).", "inductive-lemma: forall N$i (N$i >= 0 -> p(N$i)).", "inductive-lemma: forall N$i (N$i >= 1 -> (q(N$i) -> p(N$i))). lemma: forall X (q(X) and X = 1 -> p(X)).",
+        "inductive-lemma: forall N$i (N$i >= 0 -> not q(N$i)).", "inductive-lemma(forward): forall N$i (N$i >= 0 -> (p(N$i) -> q(N$i))). lemma(backward): forall X (p(X) -> q(X)).", "definition: forall X (d(X) <-> q(X) and not p(X)). definition: forall X (e(X) <-> d(X) or p(X)). lemma: forall X (e(X) -> q(X)).",
         // (the extent of a defined predicate must be finite for the enumeration: the bodies are guarded by an atom) "lemma: forall X (p(X) <-> q(X)). lemma: #false.",
     ];
     for (outlines, progs, ug) in [(O0, P0, UG0), (O1, P1, UG1)] {
@@ -195,6 +196,13 @@ pub fn check_case(c: &Case, flag_sets: &[&[&str]], st: &mut VStats, fails: &mut 
             continue;
         }
         st.problems += problems.len();
+        if flags.is_empty() {
+            // C18: a second process writes byte-identical problems
+            if let Ok((_, _, again)) = run_verify(&all, &files) {
+                let (x, y): (Vec<(&String, &String)>, Vec<(&String, &String)>) = (problems.iter().map(|p| (&p.file, &p.text)).collect(), again.iter().map(|p| (&p.file, &p.text)).collect());
+                if x != y { fails.push(Failure { property: "C18", input: what.clone(), detail: "two runs on the same input wrote different problem files".into() }); }
+            }
+        }
         for p in &problems { for e in &p.wf_errors { fails.push(Failure { property: "C09", input: what.clone(), detail: format!("{}: {e}", p.file) }); } }
         if problems.iter().any(|p| !p.readable) { continue; }
         let want_fw = !flags.contains(&"backward");
